@@ -43,7 +43,7 @@ CHECKS = {
     note='Trusted: Python fractions and the 25-line rounding function; magnitudes kept within 10^+-200.'),
  'C09': dict(
     technique='bounded exhaustive enumeration of typed expression/statement shapes with logging probes (all truth assignments, every raising probe) + Hypothesis larger shapes; small reference evaluator of order and laziness',
-    text='All statement shapes with up to 2 (quick) / 3 (thorough) internal nodes over 42 node kinds (including calls of undefined functions, the unparenthesised conditional chain, a lambda body run twice), also with identical probes at several leaves, each under all truth assignments of its probes and with every single probe (or none) raising, are evaluated with logging host probes at the leaves; the probe log, value and type must equal those of a 60-line reference evaluator of shapes. Exhaustive within the bound; larger shapes sampled with Hypothesis. Non-raising cases run again on a parser with a parse cache (one tree under every truth assignment); raising probes raise subclasses of TypeError/KeyError/ValueError/IndexError/ZeroDivisionError/AttributeError in turn.',
+    text='All statement shapes with up to 2 internal nodes (thorough: plus every 7th of the 1.5 million 3-node shapes) over 42 node kinds (including calls of undefined functions, the unparenthesised conditional chain, a lambda body run twice), also with identical probes at several leaves, each under all truth assignments of its probes and with every single probe (or none) raising, are evaluated with logging host probes at the leaves; the probe log, value and type must equal those of a 60-line reference evaluator of shapes. Exhaustive within the bound; larger shapes sampled with Hypothesis. Non-raising cases run again on a parser with a parse cache (one tree under every truth assignment); raising probes raise subclasses of TypeError/KeyError/ValueError/IndexError/ZeroDivisionError/AttributeError in turn.',
     note='Trusted: the shape evaluator in sqv/props/c09.py; probes are host callables.'),
  'C10': dict(
     technique='Hypothesis programs with names bound at builtin/host/parameter level; differential against a reference scope model + invariants on the builtin table and host-invoked lambdas',
